@@ -9,12 +9,12 @@ import (
 // MultiFixture: one gateway, N users, each with an own backend whose port is
 // the user's name; host policy "127.0.0.1:{{ preferred_username }}".
 type MultiFixture struct {
-	Lab   *Lab
-	Kind  string
-	GW    *GW
-	IdP   *IdP
-	Auth  *FakeAuth
-	Users []*MUser
+	Lab    *Lab
+	Kind   string
+	GW     *GW
+	IdP    *IdP
+	Auth   *FakeAuth
+	Users  []*MUser
 	ownIdP bool
 }
 
@@ -138,7 +138,7 @@ func (m *MultiFixture) ServerCaps() uint16 {
 // Env for one user on a transport. The model allows only the user's own host.
 func (m *MultiFixture) Env(u *MUser, transport string) *TunnelEnv {
 	return &TunnelEnv{GW: m.GW, Transport: transport, Headers: u.Headers,
-		M: &MConfig{TokenAuth: m.Kind == "openid", ServerCaps: m.ServerCaps(), Allowed: map[string]bool{u.B.Addr(): true}, Unreachable: map[string]bool{}},
+		M:        &MConfig{TokenAuth: m.Kind == "openid", ServerCaps: m.ServerCaps(), Allowed: map[string]bool{u.B.Addr(): true}, Unreachable: map[string]bool{}},
 		Backends: map[string]*Backend{u.B.Addr(): u.B}}
 }
 
